@@ -382,6 +382,24 @@ func runC03(rc *fw.RunCtx) {
 				})
 			}
 		}
+		// risor.Call by name: a function, a plain value, a name that was declared
+		// but never given a value, a name that does not exist
+		api("risor.Call", func() {
+			csrc := "func cfn(a) { return a }\ncval := 3\nif false { cunset := 1 }\n"
+			cfg := risor.NewConfig(opts...)
+			ast, err := parser.Parse(context.Background(), csrc)
+			if err != nil {
+				return
+			}
+			code, err := compiler.Compile(ast, cfg.CompilerOpts()...)
+			if err != nil {
+				return
+			}
+			for _, name := range []string{"cfn", "cval", "cunset", "cmissing"} {
+				_, err := risor.Call(context.Background(), code, name, []object.Object{object.NewInt(1)}, opts...)
+				render("risor.Call("+name+")", err)
+			}
+		})
 		// a compile of garbage left-overs must also just return
 		api("parser.Parse/compiler.Compile", func() {
 			ast, err := parser.Parse(context.Background(), src+"\n)")
